@@ -66,8 +66,9 @@ def mech_validate(rep, r, wd, quick):
     jobs = []
     for s in simple:
         probe_n = 700
-        scheds = [{"random": r.randrange(1 << 30), "p": r.choice([0.02, 0.05, 0.15, 0.4])} for _ in range(6 if quick else 60)]
-        scheds += [{"start": s0, "preempts": [[r.randrange(2, probe_n), 1 - s0]]} for s0 in (0, 1) for _ in range(2 if quick else 20)]
+        three = len(s["threads"]) > 2      # (three threads: ~100 k states of TraceThreads per execution - a handful of them)
+        scheds = [{"random": r.randrange(1 << 30), "p": r.choice([0.02, 0.05, 0.15, 0.4])} for _ in range(6 if quick or three else 60)]
+        scheds += [{"start": s0, "preempts": [[r.randrange(2, probe_n), 1 - s0]]} for s0 in (0, 1) for _ in range(2 if quick else 1 if three else 20)]
         jobs.append({"scenario": dict(s, mech=True), "schedules": scheds})
     traces = common.run_jobs_flat("sched_worker.py", jobs, wd, timeout=3000)
     groups = {}
